@@ -237,6 +237,20 @@ func vfRaceScenario(name string, bound [2]int, withP2P bool, race func(g *vfGW, 
 			vfSettle(g)
 			obs.Violations = append(obs.Violations, vfAnswered(g, track)...)
 			obs.Violations = append(obs.Violations, vfConsistency(g, nil)...)
+			// C02 under races: whatever the interleaving of publishes with attach / detach, no session
+			// receives a message twice and copies arrive in increasing id order
+			for _, c := range g.w.clients {
+				last := map[string]int{}
+				for _, f := range c.frames {
+					if d := f.Msg.Data; d != nil {
+						if d.SeqId <= last[d.Topic] {
+							obs.Violations = append(obs.Violations, vfXViolation{Key: "C02:duplicate-or-reordered-delivery:race:" + name,
+								What: fmt.Sprintf("scenario %s: session %s received message %d of %s after message %d", name, c.name, d.SeqId, vfTopicKind(d.Topic), last[d.Topic])})
+						}
+						last[d.Topic] = d.SeqId
+					}
+				}
+			}
 			var codes []string
 			for _, rq := range track {
 				code := 0
@@ -439,4 +453,16 @@ func TestVerifC13Races(t *testing.T) {
 	r := vfev.New("C13", "races")
 	defer r.Finish()
 	vfRunScenarios(r, vfC14Scenarios())
+}
+
+func TestVerifC02Races(t *testing.T) {
+	r := vfev.New("C02", "races")
+	defer r.Finish()
+	var sel []vfScenario
+	for _, sc := range vfC14Scenarios() {
+		if sc.Name == "leave-pub-sub" || sc.Name == "sub-disconnect" || sc.Name == "delsub-unsub-pub" || sc.Name == "deltopic-sub-pub" {
+			sel = append(sel, sc)
+		}
+	}
+	vfRunScenarios(r, sel)
 }
